@@ -7,19 +7,20 @@
 set -u
 name=$1; pid=$2; out=$3; shift 3
 checks=${*:-$pid}
+PATCH_FILE=${PATCH_FILE:-patch.diff}; DEMO_FILE=${DEMO_FILE:-demo_test.go}; DEMO_PKG=${DEMO_PKG:-.}; RACE=${RACE:-}
 export GOFLAGS=-mod=mod GOPROXY=off GOSUMDB=off GOTOOLCHAIN=local
 W=$(mktemp -d /tmp/seedeval.XXXX)
 git -C /repo worktree add --detach $W/repo HEAD >/dev/null 2>&1
 res_suite=fail; res_demo_with=unknown; res_demo_without=unknown
 cd $W/repo
-cp $out/demo_test.go zz_demo_test.go
-if go test -vet=off -count=1 -run TestSeedDemo . >$W/without.log 2>&1; then res_demo_without=pass; else res_demo_without=FAIL; fi
-rm zz_demo_test.go
-if git apply $out/patch.diff; then
+cp $out/$DEMO_FILE $DEMO_PKG/zz_demo_test.go
+if CGO_ENABLED=1 go test $RACE -vet=off -count=1 -run TestSeedDemo ./$DEMO_PKG >$W/without.log 2>&1; then res_demo_without=pass; else res_demo_without=FAIL; fi
+rm $DEMO_PKG/zz_demo_test.go
+if git apply $out/$PATCH_FILE; then
   if go test -vet=off -count=1 ./... >$W/suite.log 2>&1; then res_suite=pass; else res_suite=FAIL; fi
-  cp $out/demo_test.go zz_demo_test.go
-  if go test -vet=off -count=1 -run TestSeedDemo . >$W/with.log 2>&1; then res_demo_with=PASS-unexpected; else res_demo_with=fails; fi
-  rm zz_demo_test.go
+  cp $out/$DEMO_FILE $DEMO_PKG/zz_demo_test.go
+  if CGO_ENABLED=1 go test $RACE -vet=off -count=1 -run TestSeedDemo ./$DEMO_PKG >$W/with.log 2>&1; then res_demo_with=PASS-unexpected; else res_demo_with=fails; fi
+  rm $DEMO_PKG/zz_demo_test.go
 else
   res_suite=patch-does-not-apply
 fi
@@ -27,11 +28,11 @@ cd /
 git -C /repo worktree remove --force $W/repo
 echo "confirm: suite_with_change=$res_suite demo_with_change=$res_demo_with demo_without_change=$res_demo_without"
 mkdir -p /verif/seeded/$name
-cp $out/patch.diff $out/demo_test.go /verif/seeded/$name/
+cp $out/$PATCH_FILE /verif/seeded/$name/patch.diff; cp $out/$DEMO_FILE /verif/seeded/$name/demo_test.go; echo "demo package dir: $DEMO_PKG ${RACE}" > /verif/seeded/$name/demo_where.txt
 [ -f $out/notes.md ] && cp $out/notes.md /verif/seeded/$name/notes.md
 detected=""
 if [ "$res_suite" = pass ] && [ "$res_demo_with" = fails ] && [ "$res_demo_without" = pass ]; then
-  git -C /repo apply $out/patch.diff
+  git -C /repo apply $out/$PATCH_FILE
   for c in $checks; do
     (cd /verif && ./check $c quick >$W/check-$c.log 2>&1; echo "check $c exit=$? : $(grep -c '^VIOLATION' $W/check-$c.log) violation lines; $(grep '^VIOLATION' $W/check-$c.log | head -2 | tr '\n' ' ')")
     if grep -q '^VIOLATION' $W/check-$c.log; then detected="$detected $c"; cp $(grep '^VIOLATION' $W/check-$c.log | head -1 | sed 's/.*replay=\([^ ]*\).*/\1/') /verif/seeded/$name/replay-$c.json 2>/dev/null; fi
